@@ -270,7 +270,7 @@ class C18Step1D(_Base):
             expect, thunk, other = self._call(E, p, x, h, g, op)
             if other == "shifted":
                 other = self._shifted(E, p, x)
-            if steps and steps[0]["op"] in ("merge2", "fill", "fill_n") and op in ("iadd_same", "set_freq_shape", "merge2"):
+            if steps and steps[0]["op"] in ("merge2", "fill", "fill_n") and op in ("iadd_same", "set_freq_shape", "set_err_shape", "merge2"):
                 # the first step changed the bin layout (merge / adaptive growth): whether the operand still has the same bins, or a
                 # 3-element array still has the wrong shape, depends on the state - the outcome is not fixed by the call alone
                 expect = "maybe"
